@@ -315,6 +315,46 @@ func pathInfo(base types.Type, path []pathStep) (string, types.Type) {
 	return prefix, t
 }
 
+// ensureWF asserts (once per state) that every element stored in the initial element heaps of type
+// elem is a well-formed Go value (integer ranges, slice header sanity). Needed when elements are read
+// under a quantifier, where per-load type invariants cannot be added.
+func (e *Engine) ensureWF(st *State, base types.Type, twoLevel bool) {
+	key := "wf:" + typeName(base)
+	if twoLevel {
+		key += ":elem"
+	}
+	if st.factSet[key] {
+		return
+	}
+	st.factSet[key] = true
+	ls := leavesOf(base)
+	o := Var("wf_o", IntS)
+	i := Var("wf_i", IntS)
+	ts := make([]*Term, len(ls))
+	var pats [][]*Term
+	for k, lf := range ls {
+		if twoLevel {
+			h := Var(elemHeapName(base, lf.path)+"!0", heapSort(lf.sort, true))
+			ts[k] = Select(Select(h, o), i)
+		} else {
+			h := Var(ptrHeapName(base, lf.path)+"!0", heapSort(lf.sort, false))
+			ts[k] = Select(h, o)
+		}
+		pats = append(pats, []*Term{ts[k]})
+	}
+	v, _ := Unflatten(base, ts)
+	inv := And(typeInvariant(base, v, nil)...)
+	if inv.IsTrue() {
+		return
+	}
+	bound := []*Term{o}
+	if twoLevel {
+		bound = append(bound, i)
+	}
+	f := Forall(bound, pats, inv)
+	st.facts = append(st.facts, f)
+}
+
 func (e *Engine) load(st *State, l *Loc) Val {
 	switch l.Kind {
 	case LCell:
@@ -365,6 +405,7 @@ func (e *Engine) load(st *State, l *Loc) Val {
 		prefix, t := pathInfo(l.Base, l.Path)
 		ls := leavesOf(t)
 		ts := make([]*Term, len(ls))
+		e.ensureWF(st, l.Base, true)
 		for i, lf := range ls {
 			h := e.heap(st, elemHeapName(l.Base, prefix+lf.path), heapSort(lf.sort, true))
 			ts[i] = Select(Select(h, l.Obj), l.Idx)
